@@ -3,6 +3,7 @@ package path
 import (
 	"errors"
 	"fmt"
+	"strings"
 )
 
 func build(source string, parsed any) PropertyPath {
@@ -63,7 +64,8 @@ func ParsePath(path string) (PropertyPath, error) {
 		return nil, errors.New(fmt.Sprintf("unexpected input %q at offset %d of property path %q", path[parser.pt.offset:], parser.pt.offset, path))
 	}
 
-	propertyPath := build(path, parsed)
+	// the source text ends up in comment lines and string literals of the generated code: keep it on one line
+	propertyPath := build(strings.Join(strings.Fields(path), " "), parsed)
 
 	return propertyPath, nil
 }
